@@ -15,6 +15,7 @@
 
 #include <pugixml.hpp>
 
+#include <algorithm>
 #include <string>
 #include <string_view>
 #include <optional>
@@ -30,11 +31,8 @@ class schema_parser
 public:
     schema_parser(
         const std::string& path, ireporter& reporter, ifs_provider& fs_provider)
-        : reporter{&reporter}, fs_provider{&fs_provider}
+        : schema_parser{path, reporter, fs_provider, {}}
     {
-        const auto file_data = this->fs_provider->read_file(path);
-        locations = location_manager{path, file_data};
-        parse_xml(file_data);
     }
 
     void parse_schema()
@@ -56,6 +54,9 @@ public:
     }
 
 private:
+    // files whose parsing is in progress, outermost first; used to detect
+    // include cycles
+    std::vector<std::string> include_stack;
     ireporter* reporter;
     ifs_provider* fs_provider;
     location_manager locations;
@@ -70,6 +71,21 @@ private:
         group,
         data
     };
+
+    schema_parser(
+        const std::string& path,
+        ireporter& reporter,
+        ifs_provider& fs_provider,
+        std::vector<std::string> parent_includes)
+        : include_stack{std::move(parent_includes)},
+          reporter{&reporter},
+          fs_provider{&fs_provider}
+    {
+        include_stack.push_back(path);
+        const auto file_data = this->fs_provider->read_file(path);
+        locations = location_manager{path, file_data};
+        parse_xml(file_data);
+    }
 
     pugi::xml_attribute get_required_attribute(
         const pugi::xml_node root, const std::string_view attribute_name) const
@@ -135,7 +151,16 @@ private:
     void parse_include(const pugi::xml_node root)
     {
         const auto path = get_required_non_empty_string(root, "href");
-        auto parser = schema_parser{path, *reporter, *fs_provider};
+        if(std::find(std::begin(include_stack), std::end(include_stack), path)
+           != std::end(include_stack))
+        {
+            throw_error(
+                "{}: cyclic include of `{}`",
+                locations.find(root.offset_debug()),
+                path);
+        }
+        auto parser =
+            schema_parser{path, *reporter, *fs_provider, include_stack};
         parser.parse_schema_content();
 
         const auto& schema = parser.get_message_schema();
